@@ -2697,7 +2697,7 @@ class Entity(MutableMapping[str, str]):
                             logical_pos = editor_prop.value
                         elif editor_prop.name == 'comments':
                             comment = editor_prop.value
-                        elif editor_prop.name == 'group':
+                        elif editor_prop.name == 'groupid':
                             group_ids.append(int(editor_prop.value))
                         elif editor_prop.name == 'visgroupid':
                             try:
